@@ -7,5 +7,6 @@ let () = Driver.main [
   { Driver.name = "e2e_stream_c03"; run = e2e_run; judge = e2e_stream_judge_c03 };
   { Driver.name = "e2e_stream_c12"; run = e2e_run; judge = e2e_stream_judge_c12 };
   { Driver.name = "e2e_amp"; run = e2e_run; judge = e2e_amp_judge };
+  { Driver.name = "e2e_pn"; run = e2e_run; judge = e2e_pn_judge };
   { Driver.name = "e2e_inject"; run = e2e_run; judge = e2e_inject_judge };
 ]
